@@ -127,6 +127,15 @@ def captureFree (g : Graph) : Bool := g.nodes.all (fun n => n.tied.isEmpty && n.
     holds a borrow of `d` is placed before the node that moves (or `&mut`-borrows) `d`. -/
 def holdersFirst (g : Graph) (σ A : List Nat) : Bool := decide (NoMoveWhileBorrowed g σ A)
 
+/-- no non-Copy value is both consumed and borrowed. -/
+def noConflict (g : Graph) : Bool :=
+  (List.range g.size).all (fun d => (g.node d).copy || (g.consumers d).isEmpty || (g.borrowers d).isEmpty)
+
+/-- `τ` lists every node once and respects every edge (the graph is acyclic). -/
+def isTopo (g : Graph) (τ : List Nat) : Bool :=
+  decide τ.Nodup && (List.range g.size).all τ.contains && τ.all (fun n => decide (n < g.size)) &&
+  g.edges.all (fun e => decide (pos τ e.src < pos τ e.dst))
+
 /-- ancestors-or-self of `s`, i.e. the statements on the control-flow path ending in sink `s`. -/
 def pathTo (g : Graph) (s : Nat) : List Nat := (List.range g.size).filter (fun n => g.reaches n s)
 
